@@ -357,9 +357,33 @@ def field_sources(an) -> Dict[Tuple[str, str], Set[str]]:
     return res
 
 
+def unbounded_operand_fields(an):
+    """Fields that receive the operand the bytecode parser assembled, as it is: the operand of an instruction grows by one byte with every EXTENDED_ARG
+    prefix (dis and the package's parser alike, CPython keeps the low 32 bits), so hand-written bytecode with more than six prefixes gives an int
+    beyond 2**53.  Operands that index a table or name a jump target are bounded by that table / by the code (R13.6) and are not listed."""
+    from . import c02
+    out = {}
+    f, _arms = c02.find_operand_decoder(an, (3, 10))
+    if len(f.params) < 2:
+        raise AnalysisError(f"{f.qual}: operand parameter not recognised")
+    argp = f.params[1]
+    for r in ast.walk(f.node):
+        if not (isinstance(r, ast.Return) and r.value is not None):
+            continue
+        v = r.value
+        if isinstance(v, ast.Name) and v.id == argp:
+            out[("code_data::Instruction", "arg")] = r
+        elif isinstance(v, ast.Call) and isinstance(v.func, ast.Name) and len(v.args) == 1 and not v.keywords and isinstance(v.args[0], ast.Name) and v.args[0].id == argp:
+            res = an.prog.resolve_global(f.module, v.func.id, f)
+            if res and res[0] == "class" and res[1].is_dataclass and res[1].fields:
+                out[(res[1].qual, res[1].fields[0].name)] = r
+    return out
+
+
 def r072(an, rep, enc, cdec, defs):
     tg = an.tg
     srcs = field_sources(an)
+    unbounded = unbounded_operand_fields(an)
     it_i, _ = an.interp("from_json")
     dcs = data_classes(an)
     for ci in dcs:
@@ -387,9 +411,23 @@ def r072(an, rep, enc, cdec, defs):
                 shapes.discard("null")  # None is the default: hidden, never emitted
             origin = srcs.get((ci.qual, f.name), set())
             arbitrary = bool(origin & ARBITRARY_SOURCES)
+            raw_operand = (ci.qual, f.name) in unbounded
             problems, warns, notes = [], [], []
             for sh in sorted(shapes, key=str):
                 is_tag = isinstance(sh, tuple) and sh[0] == "tag"
+                if is_tag and raw_operand and sh[1] == frozenset({"int"}) or (is_tag and raw_operand and set(sh[1]) == {"int"}):
+                    # the raw operand: unbounded through EXTENDED_ARG prefixes, so the tagged big-int form is really written
+                    reads_int_tag = True
+                    if ci.name == "Instruction":
+                        # the operand goes through the operand decoder (the function with the `"target" in value` arm): it needs an arm for the tagged int
+                        argdec = [g for g in an.closure("from_json") if g.params and any(k == "target" for k, _r, _n in decoder_tags(g))]
+                        if len(argdec) != 1:
+                            raise AnalysisError("the JSON decoder of instruction operands (arm for the key 'target') was not found")
+                        reads_int_tag = any(k == "int" for k, _r, _n in decoder_tags(argdec[0]))
+                    if not _decoder_converts(an, it_i, ci, f) or not reads_int_tag:
+                        problems.append(f"shape {_sh(sh)} is written for {f.name} when the operand is beyond 2**53 (hand-written bytecode with more than six EXTENDED_ARG prefixes - CPython runs it, "
+                                        f"keeping the low 32 bits) but from_json_data does not convert it back: the document to_json_data wrote does not load")
+                    continue
                 if is_tag and not arbitrary:
                     notes.append(f"{_sh(sh)} not armed (value comes from {sorted(origin) or 'constants'}: identifier / C int by CPython's contract)")
                     continue
